@@ -105,19 +105,20 @@ def families(tier):
 
     # F2: overlapping evaluate calls (second evaluate before the job queue is drained), n <= 2 (thorough: n = 3 default kinds)
     jobs = []
-    for n in (1, 2, 3) if thorough else (1, 2):
+    for n in (1, 2, 3):
         names = M.NAMES[:n]
         hists = [[a + "!", b] for a in names for b in names]
         if n == 3:
-            hists = [["a!", "a"], ["a!", "b"], ["b!", "a"]]
+            hists = [["a!", "a"], ["a!", "b"], ["b!", "a"]] if thorough else [["a!", "b"]]
         for imp in graphs(n):
             for hist in hists:
                 if n == 3 and not all_reachable(n, imp, hist):
                     continue
-                behs = all_behs(n) if n < 3 else all_behs(n, "ptw")
+                behs = all_behs(n) if n < 3 else (all_behs(n, "ptw") if thorough else ["wpp", "pwp", "ppw"])
                 jobs.append(job(n, imp, behs, hist, pre=True, fam="overlap"))
     fams.append(("overlap", "second evaluate() issued before the job queue is drained (modules loaded+linked first): n<=2 all graphs x 4^n "
-                 "behaviours x all (x!,y)" + ("; n=3 all graphs whose modules are all reachable x {p,t,w}^3 x {(a!,a),(a!,b),(b!,a)}" if thorough else ""), jobs))
+                 "behaviours x all (x!,y)" + ("; n=3 all graphs whose modules are all reachable x {p,t,w}^3 x {(a!,a),(a!,b),(b!,a)}" if thorough else
+                                              "; n=3 all graphs whose modules are all reachable x exactly one awaiting module x (a!,b)"), jobs))
 
     # F3: n = 3, every graph with ordered import lists in which a and b together reach every module, history [a,a,b,b], immediate loader
     g3 = [imp for imp in graphs(3) if all_reachable(3, imp, ["a", "b"])]
